@@ -14,6 +14,11 @@ Part 1, the solver (spec/Solver.tla, shared with C02; harness/solverkit.py):
     C11_BoundedSweeps             sweeps started in a period <= cap + 1
     C11_FailureRaises             a failing period ends in a ValueError (incl. ConvergenceError) or an
                                   ArithmeticError (OverflowError / ZeroDivisionError are accepted as loud)
+    C11_UnsolvableRaises          no period whose iterate is not finite / whose error measure was NaN is
+                                  reported as solved (it did not meet the tolerance, so an error is due)
+    C11_PersistentErrorRaises     no period is reported as solved at values where a submitted equation is
+                                  undefined (ZeroDivisionError / ValueError when evaluated there): the
+                                  arithmetic error persisted, so a ValueError is due
     C11_PrefixIntact              every entry present before SolveStep(k) is unchanged after it
     C11_EqualLengthsAfterFailure  after the exception all non-exogenous series have equal length
     C11_ContractionSolved         a system generated as a sup-norm contraction (every row sum <= 0.8,
@@ -59,8 +64,10 @@ def nontrivial(case, events):
 def solver_part(rep):
     sk.expect_counterexample(rep, core, 'MC_Solver_asfound2.cfg', 'C11_EqualLengthsAfterFailure')
     behs = sk.tlc_behaviours(rep, core, rep.tier)
-    items = [{'case': sk.scenario(b), 'behaviour': b} for b in behs if sk.scenario_realisable(b)]
-    rep.extra['behaviours_replayed'] = len(items)
+    items = [{'case': sk.scenario(b, v), 'behaviour': b} for b in behs if sk.scenario_realisable(b)
+             for v in sk.scenario_variants(b)]
+    rep.extra['behaviours_replayed'] = sum(1 for b in behs if sk.scenario_realisable(b))
+    rep.extra['behaviour_realisations'] = len(items)
     items += [{'case': c} for c in sk.classics()]
     n_random = 400 if rep.tier == 'quick' else 5000
     items += [{'case': c} for c in sk.random_cases(rep.seed + 11, n_random, contractive_share=0.6)]
